@@ -49,8 +49,8 @@ CLAIMED["C04"] = dict(
     text="Decides the statement's last sentence exactly (a value is opened only on the equal edge of a comparison of the two different received copies) plus the wiring of the MAC path: validate_record precedes both reveals in the PRF, mac_multiply multiplies (x,y) and (r*x, induced y) on distinct steps and accumulates the product on every Ok path, accumulate_macs uses one per-lane PRSS coefficient for both u and w, validate returns Ok only if check_zero(u - w*r), and the u/w/r record-id families are jointly injective for the constants used. Detection probability and algebraic soundness are not decided.",
     ref="§3 C04")
 CLAIMED["C05"] = dict(
-    technique="static analysis: dominator ordering with await settlement and `?` edges (verify before release, same table), verdict-guard polarity of every hash comparison, field-order symmetry of writer/reader chains, constant relations on tag offsets",
-    text="Decides the detection wiring of the malicious shuffle: MAC tags are added before shuffling, verify_shuffle is awaited and `?`-propagated before the rows are released from the same table, each documented hash comparison is present, compares a local with a received hash and gates Ok; no Ok return of verify_shuffle or of a per-role verifier bypasses the key opening, a comparison or a hash send for any input (e.g. an empty output table), and the tags are recomputed with the opened keys; report fields are packed and unpacked in the same order and the tag is cut at the share's byte size. The permutation/multiset property and output-share consistency are numerical and not decided.",
+    technique="static analysis: symbolic interpretation of MIR expression trees (the three shuffle role functions, mask_and_shuffle and their closures evaluated over GF(2)-linear forms with one symbol per pairwise mask and message matching by step/sender/receiver; nothing is executed), dominator ordering with await settlement and `?` edges (verify before release, same table), verdict-guard polarity of every hash comparison, path rules on the whole-table transfers, field-order symmetry of writer/reader chains, constant relations on tag offsets",
+    text="Decides the share algebra of the three-party shuffle (outputs XOR to the input row, all pairwise masks cancel, the result is a consistent replicated sharing, only equally permuted tables are combined, three rounds keyed by three different helper pairs, verification tables pair up), the plumbing of the whole-table transfers on all paths (nothing truncated or dropped silently, empty tables, size word) and the detection wiring of the malicious shuffle: MAC tags are added before shuffling, verify_shuffle is awaited and `?`-propagated before the rows are released from the same table, each documented hash comparison is present, compares a local with a received hash and gates Ok; no Ok return of verify_shuffle or of a per-role verifier bypasses the key opening, a comparison or a hash send for any input (e.g. an empty output table), and the tags are recomputed with the opened keys; report fields are packed and unpacked in the same order and the tag is cut at the share's byte size. The permutation/multiset property and output-share consistency are numerical and not decided.",
     ref="§3 C05")
 
 CLAIMED["C11"] = dict(
@@ -68,8 +68,8 @@ CLAIMED["C10"] = dict(
     ref="§3 C10")
 
 CLAIMED["C12"] = dict(
-    technique="static analysis: finite evaluation of each parameter guard over the orderings below/equal/above its bound (compared with a frozen table from the repository's documentation), provenance of the divisor of the noise reduction (power-of-two check), role/step/generator wiring census of the three noise passes, expression-shape and dominance checks of the samplers, numerical comparison of the extracted eq.-11 prefactor with its closed form on a parameter grid",
-    text="Decides the guard and wiring clauses: every documented parameter range check rejects exactly the out-of-range orderings (the deviant `delta != 0.0` guard was found this way), the sample-to-share map reduces modulo a power of two for every admitted width (the 2^32-1 modulus at the production width was found this way), the three noise/padding passes exclude H1, H2, H3 on distinct steps, the two generating helpers draw from the PRSS side they share and the excluded helper contributes zero; the samplers have the documented construction (geometric counts failures from 0, double geometric = shift + g1 - g2 with p = 1 - e^(-1/s), truncated sampler returns the unmodified draw exactly on 0 <= draw <= 2*shift and redraws otherwise); the truncation search scans n upwards from the sensitivity and accepts the first n with rhs(n) <= delta, where rhs's prefactor equals the closed form of eq. 11 numerically on a grid and its sum runs over n-D+1..=n. The achieved distribution as a numerical object and the achieved delta are not decided.",
+    technique="static analysis: producer/consumer field-agreement analysis (fields read transitively by the consumers of a struct-update construction site vs. fields set there), finite evaluation of each parameter guard over the orderings below/equal/above its bound (compared with a frozen table from the repository's documentation), provenance of the divisor of the noise reduction (power-of-two check), role/step/generator wiring census of the three noise passes, expression-shape and dominance checks of the samplers, numerical comparison of the extracted eq.-11 prefactor with its closed form on a parameter grid",
+    text="Decides the guard and wiring clauses: the noise parameters configured for a mechanism are the ones its samplers read (no consumer of a NoiseParams built with ..Default::default() reads a field left at its default, documented defaults excepted; sibling OPRFPaddingDp::new calls read the same field per argument); every documented parameter range check rejects exactly the out-of-range orderings (the deviant `delta != 0.0` guard was found this way), the sample-to-share map reduces modulo a power of two for every admitted width (the 2^32-1 modulus at the production width was found this way), the three noise/padding passes exclude H1, H2, H3 on distinct steps, the two generating helpers draw from the PRSS side they share and the excluded helper contributes zero; the samplers have the documented construction (geometric counts failures from 0, double geometric = shift + g1 - g2 with p = 1 - e^(-1/s), truncated sampler returns the unmodified draw exactly on 0 <= draw <= 2*shift and redraws otherwise); the truncation search scans n upwards from the sensitivity and accepts the first n with rhs(n) <= delta, where rhs's prefactor equals the closed form of eq. 11 numerically on a grid and its sum runs over n-D+1..=n. The achieved distribution as a numerical object and the achieved delta are not decided.",
     ref="§3 C12")
 
 CLAIMED["C03"] = dict(
@@ -78,8 +78,8 @@ CLAIMED["C03"] = dict(
     ref="§3 C03")
 
 CLAIMED["C06"] = dict(
-    technique="static analysis: expression-shape extraction and constant relation for the PRSS index packing, guard polarity of the offset bound, who-may-construct census, affine record-id families, provenance of PRSS indices in proof generation, variant table of indexed/sequential exclusivity, left/right symmetry census",
-    text="Decides the index-arithmetic clauses: (index << 32) + offset is injective on the offsets PrssIndex128::new admits (offset <= MAX_OFFSET < 2^32, struct built only in new), MAC and DZKP batches use disjoint record-id families/ranges, every PRSS draw in proof generation takes its index from the batch's RecordIdRange (exhaustion panics), a step cannot be used both indexed and sequentially, and the left and right streams are created for the same index with direction selecting the matching generator. That no execution ever repeats a (step, index) pair, and the AES/HKDF behaviour, are not decided.",
+    technique="static analysis: finite evaluation of the extracted PRSS index packing expression over every admitted offset and sampled indices (affine form, injectivity, span below the index stride), guard polarity of the offset bound, who-may-construct census, affine record-id families, provenance of PRSS indices in proof generation, variant table of indexed/sequential exclusivity, left/right symmetry census",
+    text="Decides the index-arithmetic clauses: u64::from(PrssIndex128) is index * D + g(offset) with g injective and spanning less than D on every offset PrssIndex128::new admits (struct built only in new), MAC and DZKP batches use disjoint record-id families/ranges, every PRSS draw in proof generation takes its index from the batch's RecordIdRange (exhaustion panics), a step cannot be used both indexed and sequentially, and the left and right streams are created for the same index with direction selecting the matching generator. That no execution ever repeats a (step, index) pair, and the AES/HKDF behaviour, are not decided.",
     ref="§3 C06")
 
 CLAIMED["C09"] = dict(
